@@ -33,6 +33,18 @@ VARIANTS = [
     dict(name='name-bond-needs-one-name', expect='fire', key='MPT-name-bonds|edges', edits=[
         dict(file=MB, old="        if block_idx_name in mol_name_to_idx and block_jdx_name in mol_name_to_idx:\n            graph_idx = mol_name_to_idx[block_idx_name]",
              new="        if block_idx_name in mol_name_to_idx or block_jdx_name in mol_name_to_idx:\n            graph_idx = mol_name_to_idx[block_idx_name]")]),
+    dict(name='search-radius-fudge-squared (original defect F21)', expect='fire', key='BND-search-radius', edits=[
+        dict(file=MB, old="        pairs = tree.sparse_distance_matrix(tree, max_dist)", new="        pairs = tree.sparse_distance_matrix(tree, max_dist * fudge)")]),
+    dict(name='search-radius-without-fudge', expect='fire', key='BND-search-radius', edits=[
+        dict(file=MB, old="    max_dist *= fudge\n", new="")]),
+    dict(name='fallback-pass-default-fudge (seed C10_e)', expect='fire', key='PROV-fudge|calls', edits=[
+        dict(file=MB, old="                _bonds_from_distance(system, idxs, fudge=fudge)", new="                _bonds_from_distance(system, idxs)")]),
+    dict(name='non-edges-rebound-per-residue (seed C10_f)', expect='fire', key='PROV-non-edges|accumulate', edits=[
+        dict(file=MB, old="            non_edges.update(_bonds_from_names(system, resname, idxs, force_field))", new="            non_edges = _bonds_from_names(system, resname, idxs, force_field)")]),
+    dict(name='benign-non-edges-ior', expect='silent', edits=[
+        dict(file=MB, old="            non_edges.update(_bonds_from_names(system, resname, idxs, force_field))", new="            non_edges |= _bonds_from_names(system, resname, idxs, force_field)")]),
+    dict(name='benign-search-radius-generous', expect='silent', edits=[
+        dict(file=MB, old="        pairs = tree.sparse_distance_matrix(tree, max_dist)", new="        pairs = tree.sparse_distance_matrix(tree, max_dist * 1.5)")]),
     dict(name='benign-demorgan-guard', expect='silent', edits=[
         dict(file=MB, old="        if element1 == 'H' and element2 == 'H' or \\\n                (resserial1 != resserial2 and (element1 == 'H' or element2 == 'H')):\n            continue\n",
              new="        both_h = element1 == 'H' and element2 == 'H'\n        any_h = element1 == 'H' or element2 == 'H'\n        if both_h:\n            continue\n        if any_h and not resserial1 == resserial2:\n            continue\n")]),
